@@ -126,6 +126,7 @@ Special == { RecDoc2, ObjD(<<KVp(Kx, NumD(N1)), KVp(Kr, RecDoc2)>>), ObjD(<<KVp(
              ObjD(<<KVp(Ka, NumD(N1)), KVp(Kd, NumD(N1)), KVp(Kb, NumD(N2))>>), ObjD(<<KVp(Kp, ObjD(<<KVp(Ka, NumD(N1)), KVp(Kd, NumD(N1))>>)), KVp(Kx, NumD(N7))>>),
              ObjD(<<KVp(Ka, NumD(N1)), KVp(Kp, ObjD(<<KVp(Kx, NumD(N1)), KVp(Kb, NumD(N2))>>))>>), ObjD(<<KVp(Ka, NumD(N1)), KVp(Kp, ObjD(<<KVp(Kx, NumD(N1))>>))>>),
              ObjD(<<KVp(Ka, NumD(N1)), KVp(Kp, ArrD(<<ObjD(<<KVp(Kb, NumD(N2))>>)>>))>>), ObjD(<<KVp(Ka, NumD(N1)), KVp(Kp, ArrD(<<ObjD(<<>>)>>))>>),
+             ObjD(<<KVp(<<120, 121>>, NumD(N1))>>), ObjD(<<KVp(<<120, 121>>, NumD(N1)), KVp(Kabc, NumD(N1))>>),          \* a key only the SECOND member of a key-type union admits
              ObjD(<<KVp(Kd, NumD(N2)), KVp(Kzz, StrD(Ss))>>), ObjD(<<KVp(Kd, NumD(N2)), KVp(Kzz, NumD(N1))>>),
              ObjD(<<KVp(Ka, NumD(N1)), KVp(Kd, NumD(N2)), KVp(Kzz, StrD(Ss))>>), ObjD(<<KVp(Ka, NumD(N1)), KVp(Kd, NumD(N2)), KVp(Kzz, NumD(N1))>>),
              ArrD(<<ArrD(<<NumD(N1)>>)>>), ObjD(<<KVp(Kp, ArrD(<<NumD(N1), StrD(Sa)>>))>>), ObjD(<<KVp(Kp, StrD(Sa_b))>>),
